@@ -209,6 +209,9 @@ STRINGS = [
     "12:00+01", "12:00-07", "2001-001T12:00-05:30", "2001-01-01T10:00-03",
     # a comment END delimiter without the begin delimiter; block keywords only some grammars know
     "calib*/", "Begin_Object", "BEGIN_GROUP",
+    # Unicode white space that is NOT white space for the grammars, at the edges of an unquoted value
+    # (longer than the narrow width option, and than the default width: the statement has to be wrapped)
+    "\xa0lead", "trail\xa0", "\xa0" + "wrapped" * 4, "wrapped" * 4 + "\xa0", "\xa0" + "w" * 90,
 ]
 
 # long sentence of hyphenated compounds (no white space after any hyphen); padded variants put some compound
@@ -1126,7 +1129,12 @@ def str_class(s):
     if "\t" in s:
         return "tab"
     if any(c.isspace() and c not in _WS for c in s):
-        return "python-only-space"
+        # white space for Python's str.strip/split but not for the grammars (U+00A0, U+001C..1F, U+0085, ...)
+        if all(c.isspace() and c not in _WS for c in s):
+            return "python-only-space"                      # nothing else in the string (the recorded finding)
+        if (s[0].isspace() and s[0] not in _WS) or (s[-1].isspace() and s[-1] not in _WS):
+            return "edge-python-space"
+        return "inner-python-space"
     if any(ord(c) > 255 for c in s):
         return "non-latin1"
     if any(ord(c) > 127 for c in s):
